@@ -72,14 +72,14 @@ def explore(kind, n, cap, viol):
             v = pol.get_next_to_replace()
             r = pol.get_repr()
             if policy_state(pol) != before:
-                viol.append({"key": "C10:%s:%d:inspection-changes-state" % (kind, n), "what": "get_next_to_replace/get_repr change the policy state after accesses %s" % (list(hist),), "kind": kind, "n": n, "history": list(hist)})
+                viol.append({"key": "C10:%s:%d:inspection-changes-state" % (kind, n), "what": "get_next_to_replace/get_repr change the policy state after accesses %s" % (list(hist),), "policy": kind, "n": n, "history": list(hist)})
                 return states
             if kind == "lru":
                 want_v, want_r = ref[0], [ref.index(b) for b in range(n)]
             else:
                 want_v, want_r = ref_plru_victim(ref, n), list(ref)
             if v != want_v or list(r) != want_r:
-                viol.append({"key": "C10:%s:%d:victim-or-repr" % (kind, n), "what": "%s(%d) after accesses %s: victim %s, repr %s; prescribed victim %s, repr %s" % (kind.upper(), n, list(hist), v, list(r), want_v, want_r), "kind": kind, "n": n, "history": list(hist)})
+                viol.append({"key": "C10:%s:%d:victim-or-repr" % (kind, n), "what": "%s(%d) after accesses %s: victim %s, repr %s; prescribed victim %s, repr %s" % (kind.upper(), n, list(hist), v, list(r), want_v, want_r), "policy": kind, "n": n, "history": list(hist)})
                 return states
             for i in range(n):
                 p2 = copy.deepcopy(pol)
@@ -89,7 +89,7 @@ def explore(kind, n, cap, viol):
                 p3 = copy.deepcopy(p2)
                 p3.access(i)
                 if policy_state(p3) != s1 or p3.get_next_to_replace() != p2.get_next_to_replace() or list(p3.get_repr()) != list(p2.get_repr()):
-                    viol.append({"key": "C10:%s:%d:second-access" % (kind, n), "what": "%s(%d) after accesses %s: accessing block %d a second time in a row changes the state" % (kind.upper(), n, list(hist) + [i], i), "kind": kind, "n": n, "history": list(hist) + [i, i]})
+                    viol.append({"key": "C10:%s:%d:second-access" % (kind, n), "what": "%s(%d) after accesses %s: accessing block %d a second time in a row changes the state" % (kind.upper(), n, list(hist) + [i], i), "policy": kind, "n": n, "history": list(hist) + [i, i]})
                     return states
                 r2 = ref_lru_access(ref, i) if kind == "lru" else ref_plru_access(ref, n, i)
                 kk = (k1, r2)
@@ -130,7 +130,7 @@ def run(tier, seed):
             total += 1
             if pol.get_next_to_replace() != want_v or list(pol.get_repr()) != want_r:
                 if len(viol) < 5:
-                    viol.append({"key": "C10:%s:%d:random-history" % (kind, n), "what": "%s(%d) after accesses %s: victim %s, prescribed %s" % (kind.upper(), n, hist, pol.get_next_to_replace(), want_v), "kind": kind, "n": n, "history": list(hist)})
+                    viol.append({"key": "C10:%s:%d:random-history" % (kind, n), "what": "%s(%d) after accesses %s: victim %s, repr %s; prescribed victim %s, repr %s" % (kind.upper(), n, hist, pol.get_next_to_replace(), list(pol.get_repr()), want_v, want_r), "policy": kind, "n": n, "history": list(hist)})
                 break
     return {"evaluations": total, "distinct_nontrivial": sum(per.values()), "violations": viol[:5], "reachable_states": per,
             "samples": [{"history": [0, 1, 0], "policy": "LRU(2)"}],
@@ -141,7 +141,7 @@ def run(tier, seed):
 
 def replay(j):
     from architecture_simulator.uarch.memory.replacement_strategies import LRU, PLRU
-    n, kind = j["n"], j["kind"]
+    n, kind = j["n"], j["policy"]
     pol = LRU(n) if kind == "lru" else PLRU(n)
     ref = tuple(range(n)) if kind == "lru" else tuple([False] * (n - 1))
     bad = False
@@ -150,8 +150,14 @@ def replay(j):
         pol.access(i)
         ref = ref_lru_access(ref, i) if kind == "lru" else ref_plru_access(ref, n, i)
         want_v = ref[0] if kind == "lru" else ref_plru_victim(ref, n)
-        if pol.get_next_to_replace() != want_v:
+        want_r = [ref.index(b) for b in range(n)] if kind == "lru" else list(ref)
+        if pol.get_next_to_replace() != want_v or list(pol.get_repr()) != want_r:
             bad = True
     print("history", j["history"], "victim", pol.get_next_to_replace(), "repr", pol.get_repr(), "reference", ref)
     print("recorded:", j.get("what"))
-    return bad or "second-access" in j.get("key", "") or "inspection" in j.get("key", "")
+    if "second-access" in j.get("key", "") and j["history"]:
+        import copy as _c
+        q = _c.deepcopy(pol)
+        q.access(j["history"][-1])
+        bad = bad or policy_state(q) != policy_state(pol) or q.get_next_to_replace() != pol.get_next_to_replace()
+    return not bad          # True = the contract holds now
